@@ -19,8 +19,8 @@ Theorem C23_migration_preserves : forall cfg perm folder order,
   v1_load files <> [] ->
   covers perm (v1_load files) ->
   exists hydf st,
-    migrate cfg perm false folder None =
-      (MS (if delete_old cfg then None else Some folder) (Some hydf), PSuccess) /\
+    migrate cfg perm false folder PreNone =
+      (MS (if delete_old cfg then None else Some folder) (PreFile hydf), PSuccess) /\
     load_index hydf = Some st /\
     (forall k, ilookup k (fst st) = ilookup k (v1_load order)) /\
     snd st = v1_meta folder.
@@ -42,7 +42,7 @@ Theorem C23_migration_preserves_v1_histories : forall ops cs cfg perm meta order
   (forall f, In f order <-> In f (v1_files folder)) ->
   dry_run cfg = false -> v1_load (v1_files folder) <> [] -> covers perm (v1_load (v1_files folder)) ->
   exists hydf st,
-    migrate cfg perm false folder None = (MS (if delete_old cfg then None else Some folder) (Some hydf), PSuccess) /\
+    migrate cfg perm false folder PreNone = (MS (if delete_old cfg then None else Some folder) (PreFile hydf), PSuccess) /\
     load_index hydf = Some st /\
     (forall k, ilookup k (fst st) = ilookup k (v1_load order)) /\ snd st = meta.
 Proof. exact migration_preserves_v1_histories. Qed.
@@ -59,30 +59,51 @@ Theorem C23_failure_leaves_v1_intact : forall cfg perm wf folder pre st ph,
   (m_v1 st = None -> delete_old cfg = true /\ dry_run cfg = false /\ (ph = PSuccess \/ ph = PSkippedEmpty)) /\
   (ph = PSuccess -> wf = false /\
      (verify cfg = true -> exists ix, mig_load (v1_files folder) = MLOk ix /\ verify_ok (m_hyd st) ix = true)) /\
-  (ph = PFailVerify -> m_hyd st = None) /\
+  (ph = PFailVerify -> m_hyd st = PreNone) /\
   (ph = PFailLoad \/ ph = PDryRun \/ ph = PSkippedEmpty -> m_hyd st = pre).
 Proof. exact failure_leaves_v1_intact. Qed.
 Print Assumptions C23_failure_leaves_v1_intact.
 
 (* informational: the tool's own verification only checks key presence *)
 Theorem C23_verify_is_weak :
-  exists hyd expected k, verify_ok (Some hyd) expected = true /\
+  exists hyd expected k, verify_ok (PreFile hyd) expected = true /\
     ilookup k expected = Some 10 /\
     option_map (fun st => ilookup k (fst st)) (load_index hyd) = Some (Some 99).
 Proof. exact verify_is_weak. Qed.
 Print Assumptions C23_verify_is_weak.
 
 (* The hypothesis "no .hyd at the target path" of C23_migration_preserves is necessary: the writer
-   appends to an existing file (known finding preexisting_hyd_appended). *)
+   appends to an existing file with a valid header (known finding preexisting_hyd_appended). With the
+   repaired writer a torn final block of that file is cut off first, so the old file's complete
+   blocks survive; a file shorter than its header is harmless (next theorem). *)
 Theorem C23_preexisting_hyd_refuted :
   exists pre st,
-    migrate (CFG false true true) [1; 3] false ex_folder (Some pre) = (st, PSuccess) /\
+    migrate (CFG false true true) [1; 3] false ex_folder (PreFile pre) = (st, PSuccess) /\
     m_v1 st = None /\
     ilookup 2 (v1_load (v1_files ex_folder)) = None /\
-    option_map (fun s => (ilookup 2 (fst s), snd s)) (match m_hyd st with Some f => load_index f | None => None end)
+    option_map (fun s => (ilookup 2 (fst s), snd s)) (match hyd_img (m_hyd st) with Some f => load_index f | None => None end)
       = Some (Some 20, 9).
 Proof. exact preexisting_hyd_refuted. Qed.
 Print Assumptions C23_preexisting_hyd_refuted.
+
+(* a target shorter than its header (interrupted creation) behaves exactly like no target: the
+   writer creates it again; on the paths that do not write it is left alone *)
+Theorem C23_short_target_harmless : forall cfg perm wf folder,
+  migrate cfg perm wf folder PreShort = migrate cfg perm wf folder PreNone \/
+  exists ph, (ph = PFailLoad \/ ph = PDryRun \/ ph = PSkippedEmpty) /\
+             snd (migrate cfg perm wf folder PreShort) = ph /\ snd (migrate cfg perm wf folder PreNone) = ph /\
+             m_v1 (fst (migrate cfg perm wf folder PreShort)) = m_v1 (fst (migrate cfg perm wf folder PreNone)) /\
+             m_hyd (fst (migrate cfg perm wf folder PreShort)) = PreShort.
+Proof. exact short_target_harmless. Qed.
+Print Assumptions C23_short_target_harmless.
+
+(* same finding, second shape: a target with a complete but corrupt block stays unreadable after the
+   append; without --verify the run succeeds and --delete-old removes the V1 data *)
+Theorem C23_corrupt_target_refuted :
+  exists st, migrate (CFG false false true) [1; 3] false ex_folder (PreFile (FTorn 9 [])) = (st, PSuccess) /\
+             m_v1 st = None /\ (match hyd_img (m_hyd st) with Some f => load_index f | None => None end) = None.
+Proof. exact corrupt_target_refuted. Qed.
+Print Assumptions C23_corrupt_target_refuted.
 
 (* informational: with the same key in two chunk files the legacy Load itself is order dependent *)
 Theorem C23_dup_refuted :
